@@ -3,7 +3,7 @@ Each harness runs one real method of one real node class from the IR, on a node 
 and whose content is an opaque test double, decodes the real result objects back from symbolic memory and compares the nested-list
 value with Python list semantics applied to the input value.  Counterexamples are replayed through the public API of a natively
 built libawkward (akrun) on real arrays."""
-import itertools, z3
+import itertools, re, z3
 from . import runner, nodeh, fullnative
 from .nodeh import NodeCtx, BV, Elem, NONE, compare, decode, value, concrete, SRC
 from .mharness import mdischarge, module_of
@@ -409,7 +409,7 @@ def jobs_for(prop, tier):
         return [j for j in jobs_option_below(tier) if j[1][3] == 'combinations'] + jobs_combinations(tier)
     if prop == 'C03':
         return jobs_c03(tier) + jobs_option_reduce(tier) + jobs_axis(tier, ('reduce',))
-    return {'C02': jobs_c02, 'C03': jobs_c03, 'C04': jobs_c04, 'C06': (lambda t: jobs_c06(t) + jobs_axis(t, ('sort', 'argsort'))), 'C08': (lambda t: jobs_c08(t) + jobs_numpy(t) + jobs_union(t) + jobs_reverse_merge(t) + jobs_record_merge(t) + jobs_list_merge(t)), 'C17': jobs_c17, 'C12': jobs_numpy, 'C10': jobs_c10, 'C05': jobs_c05, 'C09': jobs_c09}.get(prop, lambda t: [])(tier)
+    return {'C02': jobs_c02, 'C03': jobs_c03, 'C04': jobs_c04, 'C06': (lambda t: jobs_c06(t) + jobs_axis(t, ('sort', 'argsort'))), 'C08': (lambda t: jobs_c08(t) + jobs_numpy(t) + jobs_union(t) + jobs_reverse_merge(t) + jobs_record_merge(t) + jobs_list_merge(t) + [j for j in jobs_record_named(t) if j[0] is h_record_mergemany_named]), 'C17': jobs_c17, 'C12': jobs_numpy, 'C10': (lambda t: jobs_c10(t) + [j for j in jobs_record_named(t) if j[0] is h_record_field_key]), 'C05': jobs_c05, 'C09': jobs_c09}.get(prop, lambda t: [])(tier)
 
 
 # ------------------------------------------------------------------------------------------------ C01: getitem_next of list nodes
@@ -3227,3 +3227,235 @@ def jobs_advanced(tier):
             for nidx in ((2,) if tier == 'quick' else (1, 2, 3)):
                 js.append((h_getitem_next_array_advanced, (cls, lens, nidx), 1800))
     return js
+
+
+# ------------------------------------------------------------------------------------------------ records addressed by field name (concrete std::string objects)
+def _string_cells(cells, base, objname, text):
+    """std::string (libstdc++ SSO layout) holding a short concrete text at cells[base..base+32)"""
+    assert len(text) <= 15
+    cells[base] = (Ptr(objname, base + 16), 8)
+    cells[base + 8] = (BV(len(text)), 8)
+    for j, ch in enumerate(text.encode() + b'\0'):
+        cells[base + 16 + j] = (BV(ch, 8), 1)
+    for j in range(len(text) + 1, 16):
+        cells[base + 16 + j] = (BV(0, 8), 1)
+
+
+def _read_string(mem, p):
+    """concrete text of the std::string at pointer p (None if not concrete)"""
+    cs = [(g, q) for g, q in nodeh.ptr_cases(p) if q.obj is not None]
+    if len(cs) != 1:
+        return None
+    o, base = mem.o[cs[0][1].obj], cs[0][1].off
+    if not isinstance(base, int):
+        b = z3.simplify(base)
+        if not z3.is_bv_value(b):
+            return None
+        base = b.as_signed_long()
+    if not hasattr(o, 'cells') or base + 8 not in o.cells:
+        return None
+    n = z3.simplify(o.cells[base + 8][0])
+    if not z3.is_bv_value(n):
+        return None
+    dp = o.cells[base][0]
+    dcs = [(g, q) for g, q in nodeh.ptr_cases(dp) if q.obj is not None]
+    if len(dcs) != 1:
+        return None
+    do, doff = mem.o[dcs[0][1].obj], dcs[0][1].off
+    out = []
+    for j in range(n.as_long()):
+        if hasattr(do, 'cells'):
+            c = do.cells.get(doff + j)
+            v = z3.simplify(c[0]) if c else None
+        else:
+            v = z3.simplify(z3.Select(do.arr, z3.simplify(doff + j)))
+        if v is None or not z3.is_bv_value(v):
+            return None
+        out.append(v.as_long())
+    return bytes(out).decode('latin1')
+
+
+def string_stubs(nc):
+    """libstdc++ entry points that stay out of line, on concrete short strings"""
+    def s_compare(eng, fr, ins, st, name, argv):
+        a, b = _read_string(st.mem, argv[0]), _read_string(st.mem, argv[1])
+        if a is None or b is None:
+            raise Unsupported('std::string::compare on a string that is not concrete')
+        return z3.BitVecVal((a > b) - (a < b), 32)
+
+    def s_stoi(eng, fr, ins, st, name, argv):
+        a = _read_string(st.mem, argv[0])
+        if a is None:
+            raise Unsupported('std::stoi on a string that is not concrete')
+        try:
+            return z3.BitVecVal(int(a), 32)
+        except ValueError:
+            return ('raise',)
+    def _bytes(st, p, n):
+        cs = [(g, q) for g, q in nodeh.ptr_cases(p) if q.obj is not None]
+        if len(cs) != 1:
+            raise Unsupported('memcmp on a merged pointer')
+        o, off = st.mem.o[cs[0][1].obj], cs[0][1].off
+        out = []
+        for j in range(n):
+            if hasattr(o, 'cells'):
+                c = o.cells.get(off + j)
+                if c is None or c[1] != 1:
+                    raise Unsupported('memcmp on cells that are not bytes')
+                out.append(c[0])
+            else:
+                out.append(z3.Select(o.arr, z3.simplify(off + j)))
+        return out
+
+    def s_memcmp(eng, fr, ins, st, name, argv):
+        n = z3.simplify(argv[2])
+        if not z3.is_bv_value(n):
+            raise Unsupported('memcmp with a symbolic length')
+        a, b = _bytes(st, argv[0], n.as_long()), _bytes(st, argv[1], n.as_long())
+        r = z3.BitVecVal(0, 32)
+        for x, y in reversed(list(zip(a, b))):
+            r = z3.If(x == y, r, z3.If(z3.ULT(x, y), z3.BitVecVal(-1, 32), z3.BitVecVal(1, 32)))
+        return z3.simplify(r)
+    def s_errno(eng, fr, ins, st, name, argv):
+        if 'errno!' not in st.mem.o:
+            eng.new_record(st.mem, 'errno!', 4, tag='heap')
+            st.mem.o['errno!'].cells[0] = (z3.BitVecVal(0, 32), 4)
+        return Ptr('errno!', 0)
+
+    def s_strtol(eng, fr, ins, st, name, argv):
+        p, endp, base = argv
+        cs = [(g, q) for g, q in nodeh.ptr_cases(p) if q.obj is not None]
+        if len(cs) != 1 or not z3.is_bv_value(z3.simplify(base)) or z3.simplify(base).as_long() != 10:
+            raise Unsupported('strtol on a merged pointer or a base other than 10')
+        o, off = st.mem.o[cs[0][1].obj], cs[0][1].off
+        text = []
+        for j in range(64):
+            c = o.cells.get(off + j) if hasattr(o, 'cells') else None
+            v = z3.simplify(c[0]) if c else None
+            if v is None or not z3.is_bv_value(v):
+                raise Unsupported('strtol on text that is not concrete')
+            if v.as_long() == 0:
+                break
+            text.append(chr(v.as_long()))
+        t = ''.join(text)
+        mm = re.match(r'[ \t\n\v\f\r]*[+-]?[0-9]+', t)
+        used = mm.end() if mm else 0
+        val = int(mm.group(0)) if mm else 0
+        if not eng.is_null(endp):
+            eng.store(st, endp, Ptr(cs[0][1].obj, off + used), 'i8*', fr.mod, 'strtol')
+        return z3.BitVecVal(val, 64)
+    from .mharness import stub_throw
+    return {'memcmp': s_memcmp, 'bcmp': s_memcmp, '__errno_location': s_errno, 'strtol': s_strtol,
+            '_ZSt24__throw_invalid_argumentPKc': stub_throw, '_ZSt20__throw_out_of_rangePKc': stub_throw, '_ZN7awkward4util5quoteE*': nodeh.s_empty_string,
+            '_ZNKSt7__cxx1112basic_stringIcSt11char_traitsIcESaIcEE7compareERKS4_': s_compare,
+            '_ZNSt7__cxx114stoiERKNS_12basic_stringIcSt11char_traitsIcESaIcEEEPmi': s_stoi}
+
+
+def build_named_record(nc, names, length, name='node', tag='', first=True, space=0):
+    """RecordArray whose fields have the given (concrete, short) names"""
+    this, vals, lens = build_record(nc, len(names), length, name=name, tag=tag, first=first, space=space)
+    fo, sz, al, fields = nc.layout_of('REC', '_ZNK7awkward11RecordArray6lengthEv')
+    cells = {}
+    for i, nm in enumerate(names):
+        _string_cells(cells, 32 * i, name + '_keys', nm)
+    nc.m.record(name + '_keys', cells, const=True)
+    nb = 32 * len(names)
+    nc.m.record(name + '_lookup', {0: (Ptr(name + '_keys', 0), 8), 8: (Ptr(name + '_keys', nb), 8), 16: (Ptr(name + '_keys', nb), 8)}, const=True)
+    o = nc.m.mem.o[name]
+    o.cells[fo[3]] = (Ptr(name + '_lookup', 0), 8)
+    return this, vals, lens
+
+
+@guard
+def h_record_field_key(names, key):
+    """RecordArray::field(key): the content stored under that name, whatever its position; a name that is not a field is read as a position
+    when it is a number in range, and refused otherwise"""
+    names = tuple(names)
+    nc = NodeCtx(['REC', 'IA', 'IDX', 'CNT', 'UTL', 'KD', 'IDS'], [], unwind=max(14, 2 * len(names) + 10))
+    nc.m.eng.stubs.update(string_stubs(nc))
+    this, vals, lens = build_named_record(nc, names, 2)
+    cells = {}
+    _string_cells(cells, 0, 'key', key)
+    kp = nc.m.record('key', cells, const=True)
+    nc.m.record('ret', {})
+    out = nc.m.call('_ZNK7awkward11RecordArray5fieldERKNSt7__cxx1112basic_stringIcSt11char_traitsIcESaIcEEE', [Ptr('ret', 0), this, kp])
+    if key in names:
+        want = names.index(key)
+    else:
+        try:
+            want = int(key) if 0 <= int(key) < len(names) else None
+        except ValueError:
+            want = None
+    obls = [('raises exactly when the name is neither a field nor a position in range', z3.simplify(out.raised) != z3.BoolVal(want is None))]
+    if want is not None:
+        res = decode(nc, out.mem, nc.m.cell('ret', 0))
+        BASE = 1 << 32
+        if res['cls'] != 'opaque':
+            obls.append(('the field content itself is returned', z3.BoolVal(True)))
+        else:
+            obls.append(('the content stored under that name is returned', z3.Select(res['atoms'], BV(0)) != BV(want * BASE)))
+    return mdischarge(nc.m, 'RecordArray%s::field("%s")' % (list(names), key), obls, [], replay=None, extra=dict(bounds='field names and key concrete (case split)'))
+
+
+@guard
+def h_record_mergemany_named(names_a, names_b, la, lb):
+    """RecordArray::mergemany of two record arrays whose fields are matched by name: with the same set of names (in any order) record i of the
+    result holds, under each name, the first operand's then the second operand's entries of the field with *that name*; different sets of
+    names are refused"""
+    names_a, names_b = tuple(names_a), tuple(names_b)
+    nf = len(names_a)
+    nc = NodeCtx(['REC', 'IA', 'IDX', 'CNT', 'UTL', 'KD', 'IDS', 'EA'], [], unwind=max(16, 6 * nf + la + lb + 12))
+    nc.m.eng.stubs.update(string_stubs(nc))
+    a, va, lensa = build_named_record(nc, names_a, la, name='node')
+    b, vb, lensb = build_named_record(nc, names_b, lb, name='nodeb', tag='b', first=False, space=16)
+    install_merge_stub(nc)
+    nc.m.record('othersbuf', {0: (b, 8), 8: (NULL, 8)}, const=True)
+    others = nc.m.record('others', {0: (Ptr('othersbuf', 0), 8), 8: (Ptr('othersbuf', 16), 8), 16: (Ptr('othersbuf', 16), 8)}, const=True)
+    nc.m.record('ret', {})
+    out = nc.m.call('_ZNK7awkward11RecordArray9mergemanyERKSt6vectorISt10shared_ptrINS_7ContentEESaIS4_EE', [Ptr('ret', 0), a, others])
+    same = sorted(names_a) == sorted(names_b) and len(names_b) == nf
+    obls = [('raises exactly when the sets of field names differ', z3.simplify(out.raised) != z3.BoolVal(not same))]
+    if same:
+        perm = [names_b.index(nm) for nm in names_a]            # field k of the result takes field perm[k] of the second operand
+        want = va + [[vb[i][perm[k]] for k in range(nf)] for i in range(lb)]
+        for g, res in nodeh.decode_cases(nc, out.mem, nc.m.cell('ret', 0)):
+            if res is None:
+                obls.append(('a result is returned', z3.And(g, z3.Not(out.raised))))
+                continue
+            if res['cls'] != 'record' or len(res['contents']) != nf:
+                obls.append(('the result is a record array with the same fields', g))
+                continue
+            obls.append(('the result has as many records as both operands together', z3.And(g, res['length'] != la + lb)))
+            for i in range(la + lb):
+                for k in range(nf):
+                    obls += [(nm, z3.And(g, c)) for nm, c in compare(nodeh.at(res['contents'][k], i), want[i][k], 'record %d field "%s"' % (i, names_a[k]))]
+
+    def replay(model, ent):
+        ev = lambda t: model.eval(t, model_completion=True).as_signed_long()
+        prog, exp = '', []
+        for tagk, (L, lens, names) in enumerate(((la, lensa, names_a), (lb, lensb, names_b))):
+            ls = [min(ev(x), L + 3) for x in lens]
+            for k, n in enumerate(ls):
+                prog += 'i64 %s ' % fullnative.ints([1000 * tagk + 100 * names_a.index(names[k]) + j if names[k] in names_a else 7000 + j for j in range(n)])
+            prog += 'record %d %d %s ' % (len(names), L, ' '.join(names))
+            if same:
+                exp += [{nm: 1000 * tagk + 100 * names_a.index(nm) + j for nm in names_a} for j in range(L)]
+        prog += 'merge'
+        if not same:
+            kind_, got = fullnative.akrun(prog)
+            payload = dict(program=prog, native=[kind_, got])
+            if kind_ != 'ERR':
+                return True, 'records %s merged with records %s must be refused, the native library returns %s %s' % (list(names_a), list(names_b), kind_, str(got)[:150]), payload
+            return False, 'native library raises, as expected', payload
+        return akrun_check(prog, exp, 'merge of records %s (%d) with records %s (%d)' % (list(names_a), la, list(names_b), lb))
+    return mdischarge(nc.m, 'RecordArray::mergemany %s x %d + %s x %d' % (list(names_a), la, list(names_b), lb), obls, [], replay=replay,
+                      prefer=[x <= la + 2 for x in lensa] + [x <= lb + 2 for x in lensb],
+                      extra=dict(bounds='field names concrete (case split), %d and %d records; field content lengths symbolic' % (la, lb)))
+
+
+def jobs_record_named(tier):
+    js = [(h_record_field_key, a, 900) for a in [(('a', 'b', 'c'), 'b'), (('x', 'y'), '1'), (('x', 'y'), 'q'), (('x', 'y'), '7'), (('ab', 'a'), 'a')]]
+    q = [(('x', 'y'), ('y', 'x'), 1, 2), (('a', 'b'), ('a', 'b'), 2, 1), (('a', 'b'), ('a', 'c'), 1, 1)]
+    if tier != 'quick':
+        q += [(('a', 'b', 'c'), ('c', 'a', 'b'), 1, 1), (('k',), ('k',), 0, 2), (('a', 'b'), ('b',), 1, 1)]
+    return js + [(h_record_mergemany_named, a, 1800) for a in q]
